@@ -551,7 +551,7 @@ theorem sysStep_call (cfg : SysCfg) (s : Sys) (cid : CacheId) (a : Call) :
     (sysStep cfg s (.call cid a)).1.bindings = s.bindings ∧
     (sysStep cfg s (.call cid a)).1.get cid = (cachedCall (cfg.cap cid) (s.get cid) a (sem cid s.opts a)).1 ∧
     (∀ cid', cid ≠ cid' → (sysStep cfg s (.call cid a)).1.get cid' = s.get cid') :=
-  ⟨rfl, put_opts _ _ _, put_bindings _ _ _, get_put_same _ _ _, fun cid' h => get_put_ne _ _ _ _ h⟩
+  ⟨rfl, put_opts _ _ _, put_bindings _ _ _, get_put_same _ _ _, fun _ h => get_put_ne _ _ _ _ h⟩
 
 theorem sysRun_forall (cfg : SysCfg) (Inv : Sys → Prop) (P : SysOut → Prop)
     (hstep : ∀ s op, Inv s → Inv (sysStep cfg s op).1 ∧ P (sysStep cfg s op).2) (ops : List SysOp) :
@@ -907,14 +907,14 @@ theorem sconsistent_of_regions (ops : List SysOp)
     unfold strCalls; rw [List.mem_filter]; exact ⟨hq, by simp [hqc]⟩
   apply sem_eq_of_not_regions p q hsame
   · by_contra hne
-    have hne' := (Bool.not_eq_false _).1 hne
+    have hne' := (Bool.not_eq_false _).mp hne
     have : reuse_after_lsb0_change ops = true := by
       unfold reuse_after_lsb0_change
       simp only [List.any_eq_true]
       exact ⟨p, hp', q, hq', hne'⟩
     rw [this] at h₁; cases h₁
   · by_contra hne
-    have hne' := (Bool.not_eq_false _).1 hne
+    have hne' := (Bool.not_eq_false _).mp hne
     have : reuse_after_mxfp_overflow_change ops = true := by
       unfold reuse_after_mxfp_overflow_change
       simp only [List.any_eq_true]
